@@ -108,7 +108,10 @@ CHECKS = {
              "own calls alone (projection). Tie: all 70 (quick) / 34650 (thorough) stage-granularity interleavings of 2 / 3 "
              "real chunks with distinct data and per-call parameters, each compared bit for bit with its isolated run. "
              "Searched, not proved: real threads under seeded baton pre-emption at line granularity inside ampycloud/* and "
-             "free-running threads (pre-emption inside C extensions and library thread pools is outside any model).",
+             "free-running threads (pre-emption inside C extensions and library thread pools is outside any model); one thread "
+             "paused before every distinct source line of a pair of chunks that both have a group the mixture splits; per thread "
+             "the arguments handed to np.percentile are compared with the chunk's own sequential run (a difference there alone is a "
+             "broken tie with the frame theorem, reported as no-failing-input-found unless a result differs).",
         ref='§6 C13', technique='Lean 4 proof (frame/projection by induction over schedules) + exhaustive stage interleavings + seeded thread-schedule search'),
     'C14': dict(
         text="Lean theorems on the stage machine (ten calls on one chunk, deterministic kernels): from the fresh chunk every "
